@@ -546,6 +546,11 @@ RETRY:
 		}
 		res := fullProof.MergeSparse(sparseProof)
 		allValidSignatures = allValidSignatures && res.AllValidSignatures
+		if !res.IncreasedSignatures {
+			// None of the offered signatures for this block could be verified and added,
+			// so there is no update to hand to the kernel for it.
+			continue
+		}
 		voteUpdates[blockHash] = tmi.VoteUpdate{
 			Proof:       fullProof,
 			PrevVersion: curPrevoteState.PrevoteBlockVersions[blockHash],
@@ -553,6 +558,11 @@ RETRY:
 	}
 
 	if len(voteUpdates) == 0 {
+		if !allValidSignatures {
+			// Every signature that was not already known failed verification.
+			return tmconsensus.HandleVoteProofsBadSignature
+		}
+
 		// We must have been unable to build the sign bytes or signature proof.
 		// Ignore the message for now.
 		return tmconsensus.HandleVoteProofsNoNewSignatures
@@ -904,6 +914,11 @@ RETRY:
 		}
 		res := fullProof.MergeSparse(sparseProof)
 		allValidSignatures = allValidSignatures && res.AllValidSignatures
+		if !res.IncreasedSignatures {
+			// None of the offered signatures for this block could be verified and added,
+			// so there is no update to hand to the kernel for it.
+			continue
+		}
 		voteUpdates[blockHash] = tmi.VoteUpdate{
 			Proof:       fullProof,
 			PrevVersion: curPrecommitState.PrecommitBlockVersions[blockHash],
@@ -911,6 +926,11 @@ RETRY:
 	}
 
 	if len(voteUpdates) == 0 {
+		if !allValidSignatures {
+			// Every signature that was not already known failed verification.
+			return tmconsensus.HandleVoteProofsBadSignature
+		}
+
 		// We must have been unable to build the sign bytes or signature proof.
 		// Ignore the message for now.
 		return tmconsensus.HandleVoteProofsNoNewSignatures
